@@ -277,7 +277,7 @@ class C17(core.Check):
                                       buckets=tags, nt=nt)]
         vs = []
         fp = (o.get('probes') or {}).get('files')
-        if fp is not None and not o.get('from_cli'):
+        if fp is not None:
             import os
             reads = [os.path.basename(r) for r in fp['reads'] if r.endswith('.asm')]
             for f in m.get('includes', []):
